@@ -443,7 +443,7 @@ def lazy_case(rng, lang, m, with_seen, with_beta, dup=False):
     if with_beta:
         base.use_beta = True
         base.beta = rng.choice([0.5, 0.1, 0.001])
-        base.pruning = rng.choice([1, 2, 3, 50])
+        base.pruning = rng.choice([1, 2, 3, 50, 0])
     max_length = rng.choice([250, 250, 3])
     if dup:
         # the same category named by two columns of the tag matrix: `run` must reject the call
